@@ -131,6 +131,19 @@ func (n *panicNode) Post(ctx context.Context, s *flyt.SharedStore, p, e any) (fl
 
 type abortSignal struct{ Code int }
 
+// belowOneNode is a struct node whose retry budget is below 1 (set by option, or the zero value of a BaseNode that did
+// not come from NewBaseNode). Budgets below 1 are outside the quantifier of the retry properties, so NOTHING is demanded
+// about attempts, about post's arguments or about whether such a run succeeds at all — only C18's own statement:
+// IF the run succeeds its action is not empty, and a flow that went on after it followed the default connection.
+type belowOneNode struct {
+	*flyt.BaseNode
+	post string
+}
+
+func (n *belowOneNode) Post(ctx context.Context, s *flyt.SharedStore, p, e any) (flyt.Action, error) {
+	return flyt.Action(n.post), nil
+}
+
 type probeNode struct {
 	*flyt.BaseNode
 	visited *int
@@ -501,6 +514,41 @@ func runActCase(cs *ActCase) (fs []finding) {
 			add("empty-action:"+cs.Kind+":"+cs.PostByOption, "run of a batch node whose post function was given as a constructor option (%s form, returning %q) succeeded with the empty action — n=%d c=%d", cs.PostByOption, cs.Post, cs.N, cs.C)
 		}
 		return
+	case "budget-below-one":
+		budget := -cs.N // 0 or -1
+		switch cs.Shape {
+		case "struct":
+			node = &belowOneNode{BaseNode: flyt.NewBaseNode(flyt.WithMaxRetries(budget)), post: cs.Post}
+		case "zero-value":
+			node = &belowOneNode{BaseNode: &flyt.BaseNode{}, post: cs.Post}
+		case "func":
+			node = flyt.NewNode(flyt.WithMaxRetries(budget), flyt.WithPostFuncAny(func(ctx context.Context, s *flyt.SharedStore, p, e any) (flyt.Action, error) {
+				return flyt.Action(cs.Post), nil
+			}))
+		default: // func-builder
+			node = flyt.NewNode().WithPostFuncAny(func(ctx context.Context, s *flyt.SharedStore, p, e any) (flyt.Action, error) {
+				return flyt.Action(cs.Post), nil
+			}).WithMaxRetries(budget)
+		}
+		if !cs.Routed {
+			if act, err := flyt.Run(context.Background(), node, flyt.NewSharedStore()); err == nil && act == "" {
+				add("empty-action:budget-below-one:"+cs.Shape, "run of a %s node with retry budget %d SUCCEEDED with the empty action (post returned %q)", cs.Shape, budget, cs.Post)
+			}
+			return
+		}
+		var hit, decoyEmpty int
+		f := flyt.NewFlow(node)
+		f.Connect(node, "", &probeNode{flyt.NewBaseNode(), &decoyEmpty})
+		f.Connect(node, flyt.Action(want), &probeNode{flyt.NewBaseNode(), &hit})
+		if err := f.Run(context.Background(), flyt.NewSharedStore()); err != nil {
+			return // a library that refuses such a budget with an error is within the statement
+		}
+		if decoyEmpty > 0 {
+			add("routed-on-empty-action:budget-below-one:"+cs.Shape, "after a %s node with retry budget %d whose post returned %q the flow followed the connection on the empty action instead of %q", cs.Shape, budget, cs.Post, want)
+		} else if hit != 1 {
+			add("connection-not-followed:budget-below-one:"+cs.Shape, "after a %s node with retry budget %d whose post returned %q the flow run succeeded but the connection on %q was followed %d times", cs.Shape, budget, cs.Post, want, hit)
+		}
+		return
 	case "zero-basenode-by-value":
 		node = &zeroBaseNode{post: cs.Post}
 	case "zero-basenode-by-pointer":
@@ -682,6 +730,14 @@ func runC18(c *Cfg) {
 				cases = append(cases, &ActCase{Family: "grid-reused-node", Kind: scen.KindNames[k], Post: post, Routed: routed, FailAt: -1, Earlier: "earlier-custom"})
 			}
 			cases = append(cases, &ActCase{Family: "grid", Kind: "zero-basenode-by-value", Post: post, Routed: routed, FailAt: -1}, &ActCase{Family: "grid", Kind: "zero-basenode-by-pointer", Post: post, Routed: routed, FailAt: -1})
+			for _, sh := range []string{"struct", "zero-value", "func", "func-builder"} {
+				for n := 0; n <= 1; n++ {
+					if sh == "zero-value" && n > 0 {
+						continue
+					}
+					cases = append(cases, &ActCase{Family: "grid-retry-budget-below-one", Kind: "budget-below-one", Post: post, Routed: routed, N: n, FailAt: -1, Shape: sh})
+				}
+			}
 			cases = append(cases, &ActCase{Family: "grid", Kind: "flow", Post: post, Routed: routed, FailAt: -1}, &ActCase{Family: "grid", Kind: "flow-in-flow", Post: post, Routed: routed, FailAt: -1})
 			cases = append(cases, &ActCase{Family: "grid-flow-ending-on-nil-connection", Kind: "flow", Post: post, Routed: routed, FailAt: -1, NilEnd: true}, &ActCase{Family: "grid-flow-ending-on-nil-connection", Kind: "flow-in-flow", Post: post, Routed: routed, FailAt: -1, NilEnd: true})
 			if post == "" {
